@@ -1,7 +1,7 @@
 (* C07 - The traced schema does not depend on sample order or repetition.
    Model: Trace/Tracer.v (trace, to_field, from_samples), compared with the crate on every run
    (exhaustive leaf pairs x 16 option sets, triples, nested shapes). *)
-From Verif Require Import Tracer Coerce Coerce_proofs CoerceTable CoerceTable_proofs TracerTablesSpec Null_proofs Struct_proofs Project_proofs FlatRecords_proofs Shapes_proofs Nested_order Nested_schema Nested_repeat Nested_success.
+From Verif Require Import Tracer Coerce Coerce_proofs CoerceTable CoerceTable_proofs TracerTablesSpec Null_proofs Struct_proofs Project_proofs FlatRecords_proofs Shapes_proofs Nested_order Nested_schema Nested_repeat Nested_success Nested_total.
 Require Import Lia.
 From Coq Require Import Permutation.
 
@@ -157,12 +157,16 @@ Proof. do 6 eexists. vm_compute. repeat split; reflexivity. Qed.
    value position), tuples and tuple structs (one position per index) and enum variants (one position per variant index, the
    variant names being part of the result).  The class covers what serde_json::Value produces (objects, arrays, strings, numbers,
    booleans, null) and what derived Serialize implementations produce (structs, tuples, enums with unit / newtype / tuple /
-   struct variants, Option, Vec, maps).  Not in the class: positions at which the samples mix shapes (a struct at one sample and
-   a map at another - accepted by the crate - or shapes the crate rejects). *)
+   struct variants, Option, Vec, maps), including the mixtures the crate accepts at one position (a struct at one sample and a
+   string-keyed map at another; tuples and tuple structs).  C07_success_puts_in_class below shows that nothing else traces: the class
+   is exactly the collections that trace (up to duplicate keys inside one record). *)
 Theorem C07_nested_order_independent : forall o n d vs vs' t t',
   Hom o n vs -> Permutation vs vs' ->
   trace_seq' o d vs (Ok (TUnknown false)) = Ok t -> trace_seq' o d vs' (Ok (TUnknown false)) = Ok t' -> teq t t'.
 Proof. exact nested_order_independent. Qed.
+
+Definition structs (SS : list (list (bytes * Value))) : list (bool * list (bytes * Value)) := map (pair false) SS.
+Definition mapsS (SS : list (list (bytes * Value))) : list (bool * list (bytes * Value)) := map (pair true) SS.
 
 (* non-vacuity: records with an optional nested record, a list of records and scalar columns; three samples in two orders *)
 Definition c07_s1 : Value := VStruct [(b "id", VInt I32 1); (b "tags", VSeq [VStr (b "x"); VNone]); (b "pos", VSome (VStruct [(b "x", VF64 0); (b "y", VF64 0)]))].
@@ -174,25 +178,25 @@ Example C07_nested_example :
                 trace_seq' default_opts 0 [c07_s3; c07_s1; c07_s2] (Ok (TUnknown false)) = Ok t' /\ t <> t').
 Proof.
   split.
-  - right. right. left. exists [[(b "id", VInt I32 1); (b "tags", VSeq [VStr (b "x"); VNone]); (b "pos", VSome (VStruct [(b "x", VF64 0); (b "y", VF64 0)]))];
+  - right. right. left. exists (structs [[(b "id", VInt I32 1); (b "tags", VSeq [VStr (b "x"); VNone]); (b "pos", VSome (VStruct [(b "x", VF64 0); (b "y", VF64 0)]))];
                          [(b "id", VInt I32 2); (b "pos", VNone); (b "items", VSeq [VStruct [(b "n", VInt U8 1)]; VStruct [(b "n", VInt U8 2); (b "w", VBool true)]])];
-                         [(b "tags", VSeq []); (b "id", VInt I32 3); (b "items", VSeq [])]].
-    split; [reflexivity|]. split; [repeat constructor; cbn; intuition discriminate|]. intros k.
+                         [(b "tags", VSeq []); (b "id", VInt I32 3); (b "items", VSeq [])]]).
+    split; [reflexivity|]. split; [discriminate|]. split; [unfold structs; cbn [map snd]; repeat constructor; cbn; intuition discriminate|]. intros k.
     destruct (bytes_eqb (b "id") k) eqn:E1; [apply bytes_eqb_eq in E1; subst k; left; vm_compute; eexists; reflexivity|].
     destruct (bytes_eqb (b "tags") k) eqn:E2.
     { apply bytes_eqb_eq in E2. subst k. right. left. exists [[VStr (b "x"); VNone]; []]. split; [reflexivity|]. left. vm_compute. eexists; reflexivity. }
     destruct (bytes_eqb (b "pos") k) eqn:E3.
-    { apply bytes_eqb_eq in E3. subst k. right. right. left. exists [[(b "x", VF64 0); (b "y", VF64 0)]]. split; [reflexivity|]. split; [repeat constructor; cbn; intuition discriminate|].
+    { apply bytes_eqb_eq in E3. subst k. right. right. left. exists (structs [[(b "x", VF64 0); (b "y", VF64 0)]]). split; [reflexivity|]. split; [discriminate|]. split; [unfold structs; cbn [map snd]; repeat constructor; cbn; intuition discriminate|].
       intros k'. destruct (bytes_eqb (b "x") k') eqn:F1; [apply bytes_eqb_eq in F1; subst k'; left; vm_compute; eexists; reflexivity|].
       destruct (bytes_eqb (b "y") k') eqn:F2; [apply bytes_eqb_eq in F2; subst k'; left; vm_compute; eexists; reflexivity|].
-      left. exists []. unfold vals. cbn [flat_map flookup]. rewrite F1, F2. reflexivity. }
+      left. exists []. unfold vals, structs, mapsS. cbn [map snd flat_map flookup]. rewrite F1, F2. reflexivity. }
     destruct (bytes_eqb (b "items") k) eqn:E4.
     { apply bytes_eqb_eq in E4. subst k. right. left. exists [[VStruct [(b "n", VInt U8 1)]; VStruct [(b "n", VInt U8 2); (b "w", VBool true)]]; []]. split; [reflexivity|].
-      right. right. left. exists [[(b "n", VInt U8 1)]; [(b "n", VInt U8 2); (b "w", VBool true)]]. split; [reflexivity|]. split; [repeat constructor; cbn; intuition discriminate|].
+      right. right. left. exists (structs [[(b "n", VInt U8 1)]; [(b "n", VInt U8 2); (b "w", VBool true)]]). split; [reflexivity|]. split; [discriminate|]. split; [unfold structs; cbn [map snd]; repeat constructor; cbn; intuition discriminate|].
       intros k'. destruct (bytes_eqb (b "n") k') eqn:F1; [apply bytes_eqb_eq in F1; subst k'; left; vm_compute; eexists; reflexivity|].
       destruct (bytes_eqb (b "w") k') eqn:F2; [apply bytes_eqb_eq in F2; subst k'; left; vm_compute; eexists; reflexivity|].
-      left. exists []. unfold vals. cbn [flat_map flookup]. rewrite F1, F2. reflexivity. }
-    left. exists []. unfold vals. cbn [flat_map flookup]. rewrite E1, E2, E3, E4. reflexivity.
+      left. exists []. unfold vals, structs, mapsS. cbn [map snd flat_map flookup]. rewrite F1, F2. reflexivity. }
+    left. exists []. unfold vals, structs, mapsS. cbn [map snd flat_map flookup]. rewrite E1, E2, E3, E4. reflexivity.
   - do 2 eexists. split; [vm_compute; reflexivity|]. split; [vm_compute; reflexivity|]. discriminate.
 Qed.
 
@@ -208,16 +212,16 @@ Example C07_json_example :
                   fs1 = fs2 /\ map sf_name fs1 = [b "a"; b "b"; b "c"].
 Proof.
   split.
-  - right. right. right. left. split; [reflexivity|]. exists [[(b "b", VInt I64 1); (b "a", VSeq [VUnit; VStr (b "x")])]; [(b "a", VUnit); (b "c", VMap [(VStr (b "z"), VBool true)])]].
-    split; [reflexivity|]. split; [repeat constructor; cbn; intuition discriminate|]. intros k.
+  - right. right. left. exists (mapsS [[(b "b", VInt I64 1); (b "a", VSeq [VUnit; VStr (b "x")])]; [(b "a", VUnit); (b "c", VMap [(VStr (b "z"), VBool true)])]]).
+    split; [reflexivity|]. split; [intros _; reflexivity|]. split; [unfold mapsS; cbn [map snd]; repeat constructor; cbn; intuition discriminate|]. intros k.
     destruct (bytes_eqb (b "b") k) eqn:E1; [apply bytes_eqb_eq in E1; subst k; left; vm_compute; eexists; reflexivity|].
     destruct (bytes_eqb (b "a") k) eqn:E2.
     { apply bytes_eqb_eq in E2. subst k. right. left. exists [[VUnit; VStr (b "x")]]. split; [reflexivity|]. left. vm_compute. eexists; reflexivity. }
     destruct (bytes_eqb (b "c") k) eqn:E3.
-    { apply bytes_eqb_eq in E3. subst k. right. right. right. left. split; [reflexivity|]. exists [[(b "z", VBool true)]]. split; [reflexivity|]. split; [repeat constructor; cbn; intuition discriminate|].
+    { apply bytes_eqb_eq in E3. subst k. right. right. left. exists (mapsS [[(b "z", VBool true)]]). split; [reflexivity|]. split; [intros _; reflexivity|]. split; [unfold mapsS; cbn [map snd]; repeat constructor; cbn; intuition discriminate|].
       intros k'. destruct (bytes_eqb (b "z") k') eqn:F1; [apply bytes_eqb_eq in F1; subst k'; left; vm_compute; eexists; reflexivity|].
-      left. exists []. unfold vals. cbn [flat_map flookup]. rewrite F1. reflexivity. }
-    left. exists []. unfold vals. cbn [flat_map flookup]. rewrite E1, E2, E3. reflexivity.
+      left. exists []. unfold vals, structs, mapsS. cbn [map snd flat_map flookup]. rewrite F1. reflexivity. }
+    left. exists []. unfold vals, structs, mapsS. cbn [map snd flat_map flookup]. rewrite E1, E2, E3. reflexivity.
   - do 2 eexists. split; [vm_compute; reflexivity|]. split; [vm_compute; reflexivity|]. split; reflexivity.
 Qed.
 
@@ -250,16 +254,16 @@ Example C07_enum_example :
                 trace_seq' default_opts 0 [VNone; c07_e3; c07_e2; c07_e1] (Ok (TUnknown false)) = Ok t').
 Proof.
   split.
-  - do 6 right. split; [repeat constructor; discriminate|].
+  - do 5 right. split; [repeat constructor; discriminate|].
     replace (pls (cores [c07_e1; c07_e2; c07_e3; VNone]))
       with [(1%Z, b "B", VStruct [(b "x", VTuple [VBool true; VStr (b "s")])]); (0%Z, b "A", VInt I32 1); (2%Z, b "C", VUnit)] by reflexivity.
     intros i. destruct i as [|[|[|i]]].
     + left. vm_compute. eexists; reflexivity.
-    + right. right. left. exists [[(b "x", VTuple [VBool true; VStr (b "s")])]]. split; [reflexivity|]. split; [repeat constructor; cbn; intuition discriminate|].
+    + right. right. left. exists (structs [[(b "x", VTuple [VBool true; VStr (b "s")])]]). split; [reflexivity|]. split; [discriminate|]. split; [unfold structs; cbn [map snd]; repeat constructor; cbn; intuition discriminate|].
       intros k. destruct (bytes_eqb (b "x") k) eqn:E1.
-      * apply bytes_eqb_eq in E1. subst k. do 5 right. left. exists [[VBool true; VStr (b "s")]]. split; [left; reflexivity|].
+      * apply bytes_eqb_eq in E1. subst k. do 4 right. left. exists [(false, [VBool true; VStr (b "s")])]. split; [reflexivity|].
         intros j. destruct j as [|[|[|j]]]; left; vm_compute; eexists; reflexivity.
-      * left. exists []. unfold vals. cbn [flat_map flookup map snd wsel]. rewrite E1. reflexivity.
+      * left. exists []. unfold vals, structs, mapsS. cbn [map snd flat_map flookup]. rewrite E1. reflexivity.
     + left. vm_compute. eexists; reflexivity.
     + left. exists []. unfold wsel. cbn [flat_map]. repeat (match goal with |- context [Z.eqb ?a ?c] => destruct (Z.eqb_spec a c); [lia|] end). reflexivity.
   - do 2 eexists. split; vm_compute; reflexivity.
@@ -274,7 +278,7 @@ Example C07_map_example :
                 trace_seq' c07_mopts 0 [VMap [(VStr (b "j"), VNone)]; VMap []; VMap [(VStr (b "k"), VInt I32 1)]] (Ok (TUnknown false)) = Ok t').
 Proof.
   split.
-  - do 4 right. left. split; [reflexivity|]. exists [[(VStr (b "k"), VInt I32 1)]; []; [(VStr (b "j"), VNone)]]. split; [reflexivity|].
+  - do 3 right. left. split; [reflexivity|]. exists [[(VStr (b "k"), VInt I32 1)]; []; [(VStr (b "j"), VNone)]]. split; [reflexivity|].
     split; left; vm_compute; eexists; reflexivity.
   - do 2 eexists. split; vm_compute; reflexivity.
 Qed.
@@ -303,12 +307,52 @@ Theorem C07_from_samples_order_independent_nested : forall o n vs vs' fs1 fs2,
   from_samples o [] vs = Ok fs1 -> from_samples o [] vs' = Ok fs2 -> sdeq (SStruct fs1) (SStruct fs2).
 Proof. exact from_samples_order_independent. Qed.
 
+(* ---- C07 at full strength on the tracer model ----
+   Every collection that traces is in the class Hom: the tracer refuses a position at which two samples have different shapes (other
+   than the mixtures inside the class, and nulls anywhere).  `bound o n v` says that v nests at most n deep and that no record inside v
+   mentions a key twice (serde structs cannot; a map presented with a repeated key can, and the projection theorem does not cover it). *)
+Theorem C07_success_puts_in_class : forall o n d vs t,
+  Forall (bound o n) vs -> trace_seq' o d vs (Ok (TUnknown false)) = Ok t -> Hom o n vs.
+Proof. exact success_hom. Qed.
+
+(* hence, for ALL collections of samples (every shape, every nesting, every mixture), with no hypothesis but the absence of repeated keys
+   inside a record: the same samples in any order give the same tracer whenever both orders trace ... *)
+Theorem C07_full_order : forall o d vs vs' t t', Forall (ndk o) vs -> Permutation vs vs' ->
+  trace_seq' o d vs (Ok (TUnknown false)) = Ok t -> trace_seq' o d vs' (Ok (TUnknown false)) = Ok t' -> teq t t'.
+Proof. exact order_independent_total. Qed.
+
+(* ... and the same schema from from_samples, up to the order of struct fields at every level ... *)
+Theorem C07_full_schema : forall o vs vs' fs1 fs2, Forall (ndk o) vs -> Permutation vs vs' ->
+  from_samples o [] vs = Ok fs1 -> from_samples o [] vs' = Ok fs2 -> sdeq (SStruct fs1) (SStruct fs2).
+Proof. exact from_samples_total. Qed.
+
+(* ... repeating the samples changes neither success nor result ... *)
+Theorem C07_full_repeat : forall o d vs t, Forall (ndk o) vs -> trace_seq' o d vs (Ok (TUnknown false)) = Ok t ->
+  exists t2, trace_seq' o d (vs ++ vs) (Ok (TUnknown false)) = Ok t2 /\ teq t t2.
+Proof. exact repeat_total. Qed.
+
+(* ... and unless primitives may coerce to strings, success itself is independent of the order of the whole collection *)
+Theorem C07_full_success : forall o, o_to_string o = false -> forall d vs vs' t, Forall (ndk o) vs -> Permutation vs vs' ->
+  trace_seq' o d vs (Ok (TUnknown false)) = Ok t -> exists t', trace_seq' o d vs' (Ok (TUnknown false)) = Ok t'.
+Proof. exact success_order_free_total. Qed.
+
+(* non-vacuity: the samples of the examples above satisfy the hypothesis *)
+Example C07_full_example :
+  Forall (ndk default_opts) [c07_s1; c07_s2; c07_s3] /\ Forall (ndk default_opts) [c07_e1; c07_e2; c07_e3; VNone] /\
+  Forall (ndk default_opts) [c07_j1; c07_j2; VUnit].
+Proof. repeat split; repeat constructor; cbn; intuition discriminate. Qed.
+
 Definition c07_s3' : Value := VStruct [(b "tags", VSeq []); (b "id", VInt I32 3); (b "items", VSeq [])].
 Example C07_nested_schema_example :
   exists fs1 fs2, from_samples default_opts [] [c07_s1; c07_s2; c07_s3'] = Ok fs1 /\ from_samples default_opts [] [c07_s3'; c07_s1; c07_s2] = Ok fs2 /\
                   map sf_name fs1 = [b "id"; b "tags"; b "pos"; b "items"] /\ map sf_name fs2 = [b "tags"; b "id"; b "items"; b "pos"].
 Proof. do 2 eexists. vm_compute. repeat split; reflexivity. Qed.
 
+Print Assumptions C07_success_puts_in_class.
+Print Assumptions C07_full_order.
+Print Assumptions C07_full_schema.
+Print Assumptions C07_full_repeat.
+Print Assumptions C07_full_success.
 Print Assumptions C07_nested_success_order_free.
 Print Assumptions C07_map_projection.
 Print Assumptions C07_tuple_projection.
